@@ -31,6 +31,8 @@ SINGLE = [
     ("xy", "chi2", "quad", ["y-abs-rho", "x-abs"]),
     ("xy", "chi2_pointwise", "lin", ["y-abs", "y-abs-rho"]),
     ("xy", "chi2_fast", "lin", ["y-cov"]),
+    ("xy", "chi2", "lin", ["y-abs", "y-abs-model"]),  # uncorrelated data source + correlated model-referenced source
+    ("indexed", "chi2", "idx2", ["y-abs", "y-abs-model"]),
     ("xy", "chi2_no_errors", "lin", []),
     ("xy", "nll-gaussian", "lin", ["y-abs"]),
     ("xy", "gauss_approximation", "lin", ["y-abs"]),
@@ -43,7 +45,7 @@ SINGLE = [
     ("hist", "gauss_approximation_pointwise", "normal", ["y-abs"]),
     ("unbinned", "nll", "normal", []),
 ]
-MULTI = [["xy_ab"], ["xy_ab", "xy_ac"], ["xy_ab", "idx_ad"], ["xy_ab", "xy_ac", "xy_bc"], ["xy_ab", "hist"], ["xy_ab_x", "xy_ac"]]
+MULTI = [["xy_ab"], ["xy_ab", "xy_ac"], ["xy_ab", "idx_ad"], ["xy_ab", "xy_ac", "xy_bc"], ["xy_ab", "hist"], ["xy_ab_x", "xy_ac"], ["xy_ab_noerr", "xy_ac"], ["xy_ac", "xy_ab_relm"]]
 
 
 def single_alphabet(w):
@@ -188,7 +190,7 @@ def jobs(tier, seed):
 
 
 def bound(tier, seed):
-    return "all operation sequences of length <= %d over fix/fix-again/release/constraints(n=1,2,3)/set/do_fit on 15 single-fit configurations (4 fit types, 12 cost identifiers) and 6 multi-fits of 1-3 members (operations on multi-fit and members); valuation(s) %s" % (
+    return "all operation sequences of length <= %d over fix/fix-again/release/constraints(n=1,2,3)/set/do_fit on 17 single-fit configurations (4 fit types, 12 cost identifiers) and 8 multi-fits of 1-3 members (operations on multi-fit and members); valuation(s) %s" % (
         3 if tier == "quick" else 4,
         (seed % 3) if tier == "quick" else "0,1,2",
     )
